@@ -316,8 +316,12 @@ def check_closed(R, case, transports, seq):
 
 
 def virtual_part(R):
+    complete = enumerate_outcomes(R, small_blocks(R))
+    return complete
+
+
+def enumerate_outcomes(R, k):
     max_r = 4 if R.tier == "quick" else 5
-    k = 0
     for retries in range(1, max_r + 1):
         for timeout in ((0.5, 1, 3) if R.tier == "quick" or retries == 5 else (0.5, 1, 3, 7.25)):
             for seq in itertools.product(KINDS, repeat=retries):
@@ -332,6 +336,13 @@ def virtual_part(R):
                 R.mon["virtual_sequences_run"] += 1
                 R.mon["hygiene_events"] += len(hygiene)
                 judge_virtual(R, case, seq, retries, timeout, res, t0, log, transports)
+    return True
+
+
+def small_blocks(R):
+    """The deterministic blocks; they run BEFORE the exhaustive enumeration so that a time
+    cap never starves them.  Returns the case counter."""
+    k = 0
     # other spellings of the call
     for style in ("positional", "positional-loop-none", "kw-no-loop"):
         for retries, seq in ((1, ("reply",)), (2, ("none", "reply")), (3, ("none", "none", "none")), (2, ("icmp", "reply")), (3, ("late", "two", "none"))):
@@ -457,7 +468,7 @@ def virtual_part(R):
                         R.violation(case, "caller cancelled at t=%.2f, call ended with %r" % (cancel_at, res[:2]), None)
                         continue
                     check_closed(R, case, transports, seq)
-    return True
+    return k
 
 
 # ---------------------------------------------------------------------------
